@@ -5,16 +5,18 @@ import numpy as np
 from .. import cards, common, corr_weights, realrun
 
 
-def pdg_nc(q, pv, Q2, s2w, mz2, lam, sgn, pc, process):
-    """independent float evaluation of the PDG weight of quark q (spec of Properties/C02.lean)"""
+def pdg_nc(q, pv, Q2, s2w, mz2, lam, sgn, pc, process, neutral_lepton=False):
+    """independent float evaluation of the PDG weight of quark q (spec of Properties/C02.lean);
+    `sgn*lam` is the helicity of the beam particle counted as for e+ and nu (so sgn = -1 for e- and
+    anti-nu); a neutrino beam couples through the Z only (e_l = 0, g_V = g_A = 1/2)"""
     e = 2 / 3 if q % 2 == 0 else -1 / 3
     t3 = 0.5 if q % 2 == 0 else -0.5
     gv, ga = t3 - 2 * e * s2w, t3
-    gve, gae = -0.5 + 2 * s2w, -0.5
+    el, gve, gae = (0.0, 0.5, 0.5) if neutral_lepton else (-1.0, -0.5 + 2 * s2w, -0.5)
     eta = Q2 / (mz2 + Q2) / (4 * s2w * (1 - s2w)) / (1 - pc) if process == "NC" else 0.0
     if not pv:
-        return e * e - 2 * e * gv * (gve + sgn * lam * gae) * eta + (gve**2 + gae**2 + 2 * sgn * lam * gve * gae) * (gv**2 + ga**2) * eta**2
-    return -2 * e * ga * (gae + sgn * lam * gve) * eta + 2 * gv * ga * (2 * gve * gae + sgn * lam * (gve**2 + gae**2)) * eta**2
+        return el * el * e * e + 2 * el * e * gv * (gve + sgn * lam * gae) * eta + (gve**2 + gae**2 + 2 * sgn * lam * gve * gae) * (gv**2 + ga**2) * eta**2
+    return 2 * el * e * ga * (gae + sgn * lam * gve) * eta + 2 * gv * ga * (2 * gve * gae + sgn * lam * (gve**2 + gae**2)) * eta**2
 
 
 def cc_expected(ckm2, nf, projectile, pv, hq=0):
@@ -39,19 +41,24 @@ def search_lo(chk, r, n):
     grid = cards.default_grid(10)
     # a structured block first: polarised charged-lepton NC at low and high virtuality, every kind
     # with a LO term (random sampling alone reaches this corner in ~1 of 8 cases)
-    structured = [("NC", proj, kind, Q2, pol) for proj in ("electron", "positron") for kind in ("F2", "F3", "g1", "g4") for Q2 in (50.0, 30000.0) for pol in (0.7, -0.5)]
+    structured = [("NC", proj, kind, Q2, pol, None) for proj in ("electron", "positron") for kind in ("F2", "F3", "g1", "g4") for Q2 in (50.0, 30000.0) for pol in (0.7, -0.5)]
+    # neutral beams in NC (pure Z exchange, polarised too) and the CC light observable with all six
+    # flavours active (both third-generation masks at once)
+    structured += [("NC", proj, kind, 3000.0, pol, None) for proj in ("neutrino", "antineutrino") for kind in ("F2", "F3") for pol in (0.0, 0.6, -1.0)]
+    structured += [("CC", proj, kind, 30000.0, 0.0, 0) for proj in cards.PROJECTILES for kind in ("F2", "F3")]
     for i in range(n + len(structured)):
         process = r.choice(["EM", "NC", "NC", "CC"])
         th_kw, ob_kw = cards.rand_ew(r)
-        if process == "CC":
+        if process in ("CC", "NC"):
             proj = r.choice(list(cards.PROJECTILES))
         else:
             proj = r.choice(["electron", "positron"])
         kinds = cards.UNPOL if process == "CC" else cards.SFS
         kind = r.choice(kinds)
         Q2 = float(r.choice([5.0, 50.0, 3000.0, 30000.0]))
+        force_hq = None
         if i < len(structured):
-            process, proj, kind, Q2, pol = structured[i]
+            process, proj, kind, Q2, pol, force_hq = structured[i]
             ob_kw = dict(ob_kw, PolarizationDIS=pol)
         k = r.randrange(2, len(grid) - 1)
         x = grid[k]
@@ -59,6 +66,8 @@ def search_lo(chk, r, n):
         nf0 = 3 + sum(1 for m, kk in ((t["mc"], t["kcThr"]), (t["mb"], t["kbThr"]), (t["mt"], t["ktThr"])) if (m * kk) ** 2 <= Q2)
         # light, or a single heavy flavour that is already massless at this Q2 (single-flavour kernels)
         hq = r.choice([0, 0] + [h for h in (4, 5) if h <= nf0])
+        if force_hq is not None:
+            hq = force_hq
         flname = {0: "light", 4: "charm", 5: "bottom"}[hq]
         o = cards.obs({f"{kind}_{flname}": [dict(x=x, Q2=Q2)]}, prDIS=process, ProjectileDIS=proj, interpolation_xgrid=grid, **ob_kw)
         out = realrun.run(t, o)
@@ -72,9 +81,9 @@ def search_lo(chk, r, n):
             for pid, w in cc_expected(ckm2, nf, proj, pv, hq).items():
                 exp[realrun.BASIS.index(pid), k] = x * w
         else:
-            sgn = 1 if proj == "positron" else -1
+            sgn = 1 if proj in ("positron", "neutrino") else -1
             for q in (range(1, nf + 1) if hq == 0 else [hq]):
-                w = pdg_nc(q, pv, Q2, t["SIN2TW"], t["MZ"] ** 2, o["PolarizationDIS"], sgn, o["PropagatorCorrection"], process)
+                w = pdg_nc(q, pv, Q2, t["SIN2TW"], t["MZ"] ** 2, o["PolarizationDIS"], sgn, o["PropagatorCorrection"], process, neutral_lepton=proj in ("neutrino", "antineutrino"))
                 exp[realrun.BASIS.index(q), k] = x * w
                 exp[realrun.BASIS.index(-q), k] = x * (-w if pv else w)
         # FL has no LO term; gL likewise
